@@ -47,12 +47,49 @@ func (w *World) emitStep(op string, class int, cmp bool) {
 	w.NSteps++
 	w.emit("O %s", op)
 	w.emit("R %d %d", class, b2i(cmp))
+	if class != rOK {
+		w.emit("# class=%d %s", class, strings.ReplaceAll(w.LastErr, "\n", " "))
+	}
 	if cmp {
 		for _, l := range w.DumpState(w.Ctx) {
 			w.emit("S %s", l)
 		}
 	}
 	w.emit("E")
+	if cmp && !w.Halted && w.outsideDomain() {
+		// share/token ratios beyond 10^27: 315-bit overflow of LegacyDec comes into reach; the
+		// model's arithmetic is unbounded, so the history ends here (Admissible, DESIGN.md 3.1)
+		w.emit("A ratio-bound")
+		w.Halted = true
+	}
+}
+
+var ratioBound = math.LegacyNewDecFromInt(math.NewIntFromBigInt(pow10(27)))
+
+func (w *World) outsideDomain() bool {
+	k := w.App.AllianceKeeper
+	assets := k.GetAllAssets(w.Ctx)
+	for _, a := range assets {
+		if a.TotalTokens.IsPositive() && a.TotalValidatorShares.GT(ratioBound.MulInt(a.TotalTokens)) {
+			return true
+		}
+	}
+	out := false
+	_ = k.IterateAllianceValidatorInfo(w.Ctx, func(valAddr sdk.ValAddress, info types.AllianceValidatorInfo) bool {
+		v := types.AllianceValidator{AllianceValidatorInfo: &info}
+		for _, a := range assets {
+			ds := v.TotalDelegationSharesWithDenom(a.Denom)
+			if ds.IsPositive() {
+				vt := v.TotalTokensWithAsset(*a)
+				if vt.IsPositive() && ds.Quo(vt).GT(ratioBound) {
+					out = true
+					return true
+				}
+			}
+		}
+		return false
+	})
+	return out
 }
 
 // ---- environment synchronisation -------------------------------------------
@@ -228,6 +265,7 @@ func (w *World) runBranch(f func(ctx sdk.Context) error, keep func(class int) bo
 			errText = err.Error()
 		}
 	}()
+	w.LastErr = errText
 	oracle = w.oracleOp(cctx)
 	if keep(class) {
 		write()
